@@ -411,9 +411,9 @@ pub fn ref_response(data: &[u8], lists: &Lists) -> Option<RefHead> {
         return None;
     }
     let status: u16 = code.parse().ok()?;
-    if !(100..=599).contains(&status) {
-        return None;
-    }
+    // RFC 7230 3.1.2: status-code = 3DIGIT -- every three-digit number is a well-formed status
+    // code (600..999 and 000..099 are seen in the wild; RFC 7231 6 tells a client to treat an
+    // unrecognised code like x00 of its class, not to drop the message)
     if reason.chars().any(|c| c.is_control() && c != '\t') {
         return None;
     }
